@@ -188,6 +188,70 @@ def make_sphero_body(dims, free_r):
     return body
 
 
+def _pt_tri_d2(p, a, b, c):
+    """Squared distance from point p to triangle abc (Ericson's region walk; comparisons fork in symbolic mode)."""
+    ab, ac, ap = O.sub(b, a), O.sub(c, a), O.sub(p, a)
+    d1, d2 = O.dot(ab, ap), O.dot(ac, ap)
+    if d1 <= 0 and d2 <= 0:
+        return O.dot(ap, ap)
+    bp = O.sub(p, b)
+    d3, d4 = O.dot(ab, bp), O.dot(ac, bp)
+    if d3 >= 0 and d4 <= d3:
+        return O.dot(bp, bp)
+    vc = d1 * d4 - d3 * d2
+    if vc <= 0 and d1 >= 0 and d3 <= 0:
+        v = d1 / (d1 - d3)
+        q = O.sub(ap, O.scale(v, ab))
+        return O.dot(q, q)
+    cp = O.sub(p, c)
+    d5, d6 = O.dot(ab, cp), O.dot(ac, cp)
+    if d6 >= 0 and d5 <= d6:
+        return O.dot(cp, cp)
+    vb = d5 * d2 - d1 * d6
+    if vb <= 0 and d2 >= 0 and d6 <= 0:
+        w = d2 / (d2 - d6)
+        q = O.sub(ap, O.scale(w, ac))
+        return O.dot(q, q)
+    va = d3 * d6 - d5 * d4
+    if va <= 0 and (d4 - d3) >= 0 and (d5 - d6) >= 0:
+        w = (d4 - d3) / ((d4 - d3) + (d5 - d6))
+        q = O.sub(bp, O.scale(w, O.sub(c, b)))
+        return O.dot(q, q)
+    n = O.cross(ab, ac)
+    h = O.dot(n, ap)
+    return h * h / O.dot(n, n)
+
+
+def make_sphero_general_body(shape, quat, rr):
+    base = SH.CONVEX[shape]
+    facets = SH.convex_facets(base)
+    Pv = _placed(base, quat)
+
+    def body(H, V):
+        from coxeter.shapes import ConvexSpheropolyhedron
+
+        s = ConvexSpheropolyhedron(H.arr([[H.num(c) for c in p] for p in Pv]), H.num(rr))
+        p = [V["px"], V["py"], V["pz"]]
+        res = s.is_inside(H.arr([p]))
+        inside = True
+        for f in facets:
+            a, b, c = Pv[f[0]], Pv[f[1]], Pv[f[2]]
+            if O.dot(O.cross(O.sub(b, a), O.sub(c, a)), O.sub(p, a)) > 0:
+                inside = False
+        if inside:
+            d2 = 0 * p[0]
+        else:
+            d2 = None
+            for f in facets:
+                for a, b, c in SH.fan(f):
+                    t = _pt_tri_d2(p, Pv[a], Pv[b], Pv[c])
+                    if d2 is None or t < d2:
+                        d2 = t
+        H.claim("sphero.inside<=>oracle", H.or_(H.eqb(d2, rr * rr), H.iff(res[0], d2 < rr * rr)))
+
+    return body
+
+
 def obligations(tier, seed):
     from symx.loader import functions_encoded
     import coxeter.shapes as S
@@ -225,4 +289,12 @@ def obligations(tier, seed):
             max_paths=(60 if tier == "quick" else 400), budget_s=(150 if tier == "quick" else 1200),
             stubs=["ConvexHull(3-D) -> exact hull", "rowan.mapping.kabsch -> contract"],
             bounds="box core %s at offset (3,-2,5), rounding radius %s, query point 3 free reals; concolic path budget" % (dims, "free > 0" if free_r else "1/2")))))
+    gen = [("tetra", "r1", F(1, 2)), ("prism3", "id", F(1, 3))] if tier == "quick" else [("tetra", "r1", F(1, 2)), ("prism3", "id", F(1, 3)), ("skew", "r2", F(1, 2)), ("octa", "r3", F(1, 4)), ("pyramid", "r1", F(1, 2))]
+    for shape, quat, rr in gen:
+        nm = "C05/sphero.%s.%s.r%s" % (shape, quat, str(rr).replace("/", "_"))
+        obs.append((nm, (lambda nm=nm, shape=shape, quat=quat, rr=rr: run_e2(
+            nm, ["px", "py", "pz"], make_sphero_general_body(shape, quat, rr), functions=functions_encoded([S.ConvexSpheropolyhedron.is_inside, S.ConvexPolyhedron.__init__]),
+            first_sample=dict(px=F(7, 2), py=F(-9, 4), pz=F(41, 8)), max_paths=(40 if tier == "quick" else 300), budget_s=(180 if tier == "quick" else 1200),
+            stubs=["ConvexHull(3-D) -> exact hull", "rowan.mapping.kabsch -> contract"],
+            bounds="spheropolyhedron core %s (rotation %s, offset (3,-2,5)), rounding radius %s, query point 3 free reals; oracle = point-to-triangle distances; concolic path budget" % (shape, quat, rr)))))
     return obs
